@@ -291,6 +291,9 @@ impl<'arena> Diagnostics<'arena> {
 
     #[inline]
     fn line_col_from_span(&self, src: &str, start: usize) -> (usize, usize, usize, usize) {
+        // The table is as large as the source and is asked for several times per diagnostic.
+        // The arena never frees by itself, so give the table back as soon as it was consulted.
+        let mark = self.arena.offset();
         let line_starts = self.compute_line_starts(src);
         let line_idx = line_starts.binary_search(&start).unwrap_or_else(|x| x - 1);
         let line_start = line_starts[line_idx];
@@ -299,6 +302,9 @@ impl<'arena> Diagnostics<'arena> {
         } else {
             src.len()
         };
+        drop(line_starts);
+        // SAFETY: the table was the only allocation since `mark` and it is gone.
+        unsafe { self.arena.reset(mark) };
         let col = Self::visual_col(&src[line_start..start]) + 1;
         (line_idx + 1, col, line_start, line_end)
     }
